@@ -527,7 +527,16 @@ ReexportsImported(w, m, exported) ==
       listed == IF "__all__" \in DOMAIN own THEN Range(own["__all__"].x) ELSE {}
   IN (exported \ listed) \cap ImportedNames(w, m) # {}
 
+\* a package that may be relocated contains a relative import that leaves the package
+\*   reloutside  (feature of relocation worlds)
+RelativeLeavesPackage(w) ==
+  \E pk \in w.reloc \cap w.pkgs : \E m \in Mods(w) :
+    /\ IsPrefix(pk, m)
+    /\ \E k \in DOMAIN w.body[m] :
+         w.body[m][k].k = "from" /\ w.body[m][k].level > 0 /\ ~IsPrefix(pk, FromTarget(w, m, w.body[m][k]))
+
 TagsWith(w, exports) ==
+  (IF RelativeLeavesPackage(w) THEN {"reloutside"} ELSE {}) \cup
   UNION { TagsOfModule(w, m, {q[1] : q \in exports[m]}) : m \in TaggedModules(w) }
   \cup (IF \E m \in Mods(w) \ TaggedModules(w) :
              w.reloc # {} /\ ReexportsImported(w, m, {q[1] : q \in exports[m]})
